@@ -6,6 +6,7 @@
 From Coq Require Import String.
 From PDV Require Import lib.Base gen.Gen_C08 gen.Gen_C09 model.C08_Steps model.C09_OpCtl
      proof.C09_StatusProof proof.C09_CtlProof proof.C09_Skel.
+Local Open Scope list_scope.
 Local Open Scope Z_scope.
 
 Lemma b2z_le b : 0 <= b2z b <= 1.
@@ -92,13 +93,11 @@ Proof.
   destruct (op_check o r) as [oc st] eqn:Ec. cbn [fst snd] in *. subst o1 st. rewrite Hst.
   set (c2 := set_op c1 oc).
   (* facts about c2 *)
+  assert (Hidc : o_id oc = id).
+  { pose proof (rel_op_check o r) as R. rewrite Ec in R. destruct R as (R1 & _). cbn [fst] in R1.
+    rewrite R1. eapply get_op_id; exact Ho. }
   assert (Hoc : get_op c2 id = Some oc).
-  { pose proof (rel_op_check o r) as R. rewrite Ec in R. cbn [fst] in R.
-    destruct (fr_fwd _ _ (frame_op_update c1 id o oc Ho R) _ _ Ho) as (x & Hx & _).
-    assert (x = oc) as <-.
-    { revert Hx. unfold c2, get_op, set_op, set_ops, upd; cbn. rewrite find_put. fold (get_op c id). rewrite Ho. cbn.
-      destruct R as (R1 & _). rewrite R1, Z.eqb_refl. congruence. }
-    exact Hx. }
+  { unfold c2. rewrite <- Hidc. apply get_set_op_same with (o := o). rewrite Hidc. exact Ho. }
   assert (Hrid2 : o_rid oc = rid).
   { pose proof (rel_op_check o r) as R. rewrite Ec in R. destruct R as (_ & R2 & _). cbn [fst] in R2. congruence. }
   assert (Hrun2 : alist_get (running c2) rid = Some id) by exact Hrun.
@@ -116,17 +115,17 @@ Proof.
       (* cancel then bury *)
       unfold cancel. rewrite Hcr.
       set (ocn := fst (op_to oc CANCELED)).
+      assert (Iocn : o_id ocn = id) by (unfold ocn; destruct (rel_op_to oc CANCELED) as (R1 & _); congruence).
       assert (Hcn : get_op (set_op cr ocn) id = Some ocn).
-      { unfold get_op, set_op, set_ops, upd; cbn. rewrite find_put. fold (get_op c2 id). rewrite Hoc. cbn.
-        unfold ocn. destruct (rel_op_to oc CANCELED) as (R1 & _). rewrite R1, Z.eqb_refl. reflexivity. }
+      { rewrite <- Iocn. apply get_set_op_same with (o := oc). rewrite Iocn. exact Hcr. }
       unfold bury. rewrite Hcn.
       set (ob := if op_is_end ocn then ocn else fst (op_to ocn CANCELED)).
+      assert (Iob : o_id ob = id).
+      { unfold ob. destruct (op_is_end ocn); [exact Iocn|]. destruct (rel_op_to ocn CANCELED) as (R1 & _). congruence. }
       exists ob. split.
-      - unfold get_op, set_op, set_ops, upd; cbn. rewrite find_put. rewrite find_put. fold (get_op c2 id). rewrite Hoc. cbn.
-        assert (I2 : o_id ocn = o_id oc) by (unfold ocn; destruct (rel_op_to oc CANCELED) as (R1 & _); exact R1).
-        assert (I3 : o_id ob = o_id oc).
-        { unfold ob. destruct (op_is_end ocn); [exact I2|]. destruct (rel_op_to ocn CANCELED) as (R1 & _). congruence. }
-        rewrite I2, Z.eqb_refl. rewrite I3, I2, Z.eqb_refl. reflexivity.
+      - (* the record update does not touch the table *)
+        change (get_op (set_op (set_op cr ocn) ob) id = Some ob).
+        rewrite <- Iob. apply get_set_op_same with (o := ocn). rewrite Iob. exact Hcn.
       - (* STARTED -> CANCELED is valid, so ocn is CANCELED *)
         unfold ob, ocn, op_to. rewrite Hst.
         assert (V : valid_trans STARTED CANCELED = true) by reflexivity.
@@ -134,7 +133,7 @@ Proof.
     destruct E as (ob & Hob & Eend). destruct (fr_fwd _ _ F _ _ Hob) as (o' & Ho' & R).
     exists o'. split; [exact Ho'|]. destruct R as (_ & _ & _ & _ & _ & _ & _ & _ & R9).
     rewrite <- (reach_from_end _ _ Eend R9). exact Eend. }
-  unfold check_stale. fold c2.
+  unfold check_stale. fold c2. rewrite Hidc.
   destruct Hcause as [Hunsafe|Hcount].
   - rewrite Hunsafe. destruct (remove_operator c2 id) as [cr removed] eqn:Er. cbn [snd fst] in *. subst removed.
     cbn [fst]. apply Hend. apply frame_promote.
@@ -151,3 +150,22 @@ Proof.
       rewrite Hgt. destruct (remove_operator c2 id) as [cr removed] eqn:Er. cbn [snd fst] in *. subst removed.
       cbn [fst]. apply Hend. apply frame_promote.
 Qed.
+
+(* ---------- the proviso is needed: S2 ---------- *)
+(* A state in which conf_ver is one ahead of what the operator's steps did (o_cv = 6, region at 7) while its
+   only step, a ChangePeerV2Leave with two pending demotions, is current and unapplied.  On the store side
+   this state cannot arise (a joint state admits no other configuration change), which is why S2 does not
+   surface as a wrong decision of the real controller; as a statement about the stale test it is false. *)
+Definition s2_region' : region := Region [Peer 1 101 Voter; Peer 2 102 Demoting; Peer 3 103 Demoting] 1 7 1.
+Definition s2_step' : step := ChangePeerV2Leave [] [(2, 102); (3, 103)].
+Definition s2_ctl : ctl :=
+  Ctl [(1, s2_region')] [(1, s2_region')] [Opr 1 1 6 1 [s2_step'] 0 STARTED 1 false 1 false false] [(1, 1)] [] [] [] [] 5.
+
+Lemma s2_not_cancelled :
+  let c' := fst (ctl_step s2_ctl (EHeartbeat 1)) in
+  alist_get (running c') 1 = Some 1 /\
+  (exists o', get_op c' 1 = Some o' /\ o_st o' = STARTED) /\
+  check_safety s2_region' s2_step' = None /\
+  accounted [s2_step'] 0 < conf_ver s2_region' - 6 /\
+  conf_ver_changed s2_region' s2_step' = 2.
+Proof. vm_compute. repeat split; try reflexivity. eexists. split; reflexivity. Qed.
